@@ -135,8 +135,9 @@ def build(rng: random.Random, size: str = "quick"):
         add({"fn": "iban_country", "text": t}, g)
         add({"fn": "bic", "text": "QRST" + c + "33XXX", "kw": {"enforce_swift_compliance": True}}, g)
     # same seed, different countries / pins / modes
+    nopos = [c for c in cs if not table[c].get("positions")]
     for s in range(3 if size == "quick" else 12):
-        for cc in rng.sample(cs, 5) + ["", "PL", "NO"]:
+        for cc in rng.sample(cs, 5) + ["", "PL", "NO"] + (nopos if s == 0 else rng.sample(nopos, min(2, len(nopos)))):
             for ur in (True, False):
                 add({"fn": "random", "country": cc, "seed": f"s{s}", "use_registry": ur, "kw": {}}, f"seed:s{s}")
                 add({"fn": "bban_random", "country": cc, "seed": f"s{s}", "use_registry": ur, "kw": {}}, f"seed:s{s}")
